@@ -106,6 +106,7 @@ def handleC16 (cmd : String) (args : List Sexp) : Option Sexp :=
   | "c16.cat", (d :: items) => do
       pure (ntNestToSexp (catNT (← items.mapM nt?) (← asNat? d)))
   | "c16.todict", [r] => do pure (nestToSexp (toDictNT (← nt? r)))
+  | "c16.update", [d, v] => do pure (resToSexp (updateNT (← nt? d) (← nt? v)))
   | "c16.ravel", [.list c, .list sh] => do pure (ofNat (ravel (← nats? c) (← nats? sh)))
   | _, _ => none
 
